@@ -51,7 +51,7 @@ class TLCResult(object):
             if ln.startswith(pre) and ln.endswith(">>")]
 
 
-_cov_re = re.compile(r"^<(\w+) line \d+, col \d+ to line \d+, col \d+ of module (\w+)>: (\d+):(\d+)")
+_cov_re = re.compile(r"^<(\w+) line \d+, col \d+ to line \d+, col \d+ of module (\w+)(?: \([\d ]+\))?>: (\d+):(\d+)")
 _states_re = re.compile(r"^(\d+) states generated, (\d+) distinct states found")
 _depth_re = re.compile(r"depth of the complete state graph search is (\d+)")
 _inv_re = re.compile(r"Invariant (\S+) is violated")
